@@ -173,6 +173,8 @@ struct Th {
     run_len: u32,
     /// a stall the scenario asked for: (schedule points of this thread still to pass, ns)
     armed_stall: Option<(u32, u64)>,
+    /// the same, aimed at a code site: (file suffix, op name, matching points still to pass, ns)
+    armed_site: Option<(&'static str, &'static str, u32, u64)>,
 }
 
 struct TraceEv {
@@ -882,6 +884,23 @@ impl Engine {
                 None => return false,
             }
         } else {
+            // a stall placed by the scenario at the n-th next point of this thread at a given site
+            if let Some((file, opn, left, d)) = inner.th[me].armed_site {
+                if loc.file().ends_with(file) && op_name(op) == opn {
+                    if left == 0 {
+                        inner.th[me].armed_site = None;
+                        inner.record_fault(F_STALL, d);
+                        if let Ok(mut l) = STALLS.lock() {
+                            l.push(StallRec { step: inner.step, vt: inner.now, dur: d, file: loc.file(), line: loc.line(), op: op_name(op) });
+                        }
+                        let th = &mut inner.th[me];
+                        th.st = St::Blocked(Why::Sleep);
+                        th.wake_at = inner.now + d;
+                        return true;
+                    }
+                    inner.th[me].armed_site = Some((file, opn, left - 1, d));
+                }
+            }
             // a stall placed by the scenario at the n-th next schedule point of this thread
             if let Some((left, d)) = inner.th[me].armed_stall {
                 if op != Op::After as u8 {
@@ -1041,6 +1060,7 @@ impl Hooks for Engine {
             prio,
             run_len: 0,
             armed_stall: None,
+            armed_site: None,
         });
         id
     }
@@ -1290,6 +1310,7 @@ pub fn init(cfg: Cfg) {
         prio: rng.below(1 << 30) as i64 + (1 << 20),
         run_len: 0,
             armed_stall: None,
+            armed_site: None,
     };
     let inner = Inner {
         graces: 0,
@@ -1625,6 +1646,21 @@ pub fn disarm_stall() {
     if let Some(i) = g.as_mut() {
         if me != usize::MAX {
             i.th[me].armed_stall = None;
+            i.th[me].armed_site = None;
+        }
+    }
+}
+
+/// Ask for a stall of the calling OS thread at a code site: at its `nth` next schedule point
+/// (0 = the first) whose source file ends with `file` and whose operation is `op` (the names the
+/// trace prints: load, store, swap, opt.store, opt.take, ...). Recorded and replayed like every
+/// stall; ignored while replaying.
+pub fn stall_self_at_site(file: &'static str, op: &'static str, nth: u32, ns: u64) {
+    let me = tid();
+    let mut g = ENGINE.lock();
+    if let Some(i) = g.as_mut() {
+        if i.cfg.strategy != Strategy::Replay && me != usize::MAX {
+            i.th[me].armed_site = Some((file, op, nth, ns));
         }
     }
 }
